@@ -22,6 +22,7 @@ import Nebula.Driver.CertArgs
 import Nebula.Driver.Certverify
 import Nebula.Model.CertSign
 import Nebula.Model.P256Sig
+import Nebula.Driver.CertCliOps
 
 namespace Nebula.Driver.Certsign
 open Nebula.Driver Nebula.Net Nebula.Cert Nebula.Spec.Trust Nebula.Driver.Certverify
@@ -206,7 +207,7 @@ def step (s : Unit) (args : List String) (impl : String) : Unit × Out :=
         if impl.startsWith "ok " && (impl.splitOn " ").getD 2 "" != "1" then "bad issued-high-s scripted-signer"
         else expect "signwith-normalize" impl m
       (s, { model := m, verdict := verdict, tag := "sws:" ++ ((m.splitOn " ").headD "") })
-  | _ => (s, badOp)
+  | _ => (s, CertCliOps.cliStep args impl)   -- signCert in-process: Driver/CertCliOps.lean
 
 def main : IO Unit := runEngine () step
 
